@@ -32,6 +32,9 @@ def gen(rng, depth, scope):
     tag = f'{p}:n' if p else 'n'
     xmlns = ''.join(f' xmlns{":" + k if k else ""}="{v}"' for k, v in decl.items())
     kids = ''.join(gen(rng, depth - 1, sc) for _ in range(rng.randrange(0, 3))) if depth > 0 else ''
+    # simple-content leaves in no namespace: when a default namespace is in scope it has to be undeclared on the leaf itself (xmlns="")
+    if rng.random() < 0.35:
+        kids += ('<c xmlns="">t</c>' if sc.get('') else '<c>t</c>')
     return f'<{tag}{xmlns}>{kids}</{tag}>'
 
 
@@ -95,7 +98,10 @@ def eval_doc(args):
         enc = enc[0] if isinstance(enc, tuple) else enc
         def names(e): return [e.tag] + [n for c in e for n in names(c)]
         if enc is not None and sorted(names(enc)) != sorted(names(root)):
-            if depth(root) > 3: return dict(doc=doc, ver=ver, reported='encode names differ below the third level')
+            en, rn = sorted(names(enc)), sorted(names(root))
+            if 'xmlns=""' in doc and len(en) == len(rn) and sorted(x.split('}')[-1] for x in en) == sorted(x.split('}')[-1] for x in rn) \
+                    and all(a == b or (not b.startswith('{') and a.endswith('}' + b)) for a, b in zip(sorted(en, key=lambda x: x.split('}')[-1] + x), sorted(rn, key=lambda x: x.split('}')[-1] + x))):
+                return dict(doc=doc, ver=ver, known='C17-encode-ignores-default-namespace-undeclaration')
             return dict(doc=doc, ver=ver, problem=dict(encode_names=sorted(names(enc))[:8], expected=sorted(names(root))[:8]))
     except Exception as e:
         return dict(doc=doc, ver=ver, problem=f'encode raised {type(e).__name__}: {str(e)[:120]}')
@@ -108,15 +114,21 @@ def run(tier, seed, open_findings):
     while len(docs) < n:
         d = gen(rng, 3, {})
         if d.startswith('<p:n') or ' xmlns' in d.split('>')[0]: docs.append(d)
+    docs += ['<n xmlns="urn:u"><c xmlns="">t</c></n>', '<n xmlns="urn:u"><n><c xmlns="">t</c></n><c xmlns="">u</c></n>', '<p:n xmlns:p="urn:u"><c>t</c></p:n>']
     jobs = [(ver, d) for d in docs for ver in ('1.0', '1.1')]
     res = pmap(eval_doc, jobs)
     used = [r for r in res if r is not None]
     fails = [dict(case=dict(doc=r['doc'], ver=r['ver']), observed=r['problem'], required='every key resolves to the expanded name of its node; encode restores the names') for r in used if r and 'problem' in r]
     rep = sum(1 for r in used if r and 'reported' in r)
+    known = {}
+    for r in used:
+        if r and 'known' in r:
+            if r['known'] in open_findings: known[r['known']] = known.get(r['known'], 0) + 1
+            else: fails.append(dict(case=dict(doc=r['doc'], ver=r['ver']), observed='encode puts a no-namespace child into the default namespace of its parent', required='encode restores the names'))
     return [result('C17.decoded_keys_resolve', f'{len(used)} generated documents (root in urn:u) with prefixes p/q/default redeclared over 3 URIs, depth <= 4, default converter, both classes',
-                   len(used), fails, samples=[dict(doc=docs[0][:200])], reported={'encode names differ below the third level (reported only)': rep}, distinct=len({d for _, d in jobs}))]
+                   len(used), fails, known=known, samples=[dict(doc=docs[0][:200])], reported={'encode names differ below the third level (reported only)': rep}, distinct=len({d for _, d in jobs}))]
 
 
 def replay(check_name, case):
     r = eval_doc((case['ver'], case['doc']))
-    return dict(ok=not (r and 'problem' in r), observed=r, required='keys resolve to the expanded names')
+    return dict(ok=not (r and ('problem' in r or 'known' in r)), observed=r, required='keys resolve to the expanded names')
